@@ -422,7 +422,9 @@ fn choose_progress<S: Sut>(w: &World<S>, g: &mut G) -> Vec<Ev> {
         return vec![Ev::Tick { dt: 1 + rng.below(100) as u64 }];
     }
     if cfg.held && roll < 14 {
-        return vec![Ev::Read { node }];
+        // mostly at the replica itself; sometimes the client reads at another replica and will write here
+        let from = if cfg.disc != Disc::Causal && rng.chance(1, 4) { Some(rng.below(w.nodes.len())) } else { None };
+        return vec![Ev::Read { node, from }];
     }
     if roll < 18 && cfg.repl != Repl::State {
         let src = rng.below(w.nodes.len());
